@@ -298,6 +298,32 @@ struct Ad
     {
         using ms = std::chrono::milliseconds;
         Result r;
+        // a "span" op is a long range over keys 1..span (write ids wid[0]+i, one ttl)
+        const int N   = o.span > 0 ? (int)o.span : (int)o.n;
+        auto      KEY = [&](int i) { return o.span > 0 ? i + 1 : (int)o.key[i]; };
+        auto      WID = [&](int i) { return o.span > 0 ? o.wid[0] + i : o.wid[i]; };
+        auto      TTL = [&](int i) { return o.span > 0 ? (int)o.ttl[0] : (int)o.ttl[i]; };
+        // long ranges report an aggregate: number of results, number found, order intact, checksum of ids
+        auto      agg = [&](auto& out, auto present, auto idof) {
+            long found = 0, sum = 0, inorder = 1, i = 0;
+            for (auto& e : out)
+            {
+                if (e.first.v != KEY((int)i))
+                    inorder = 0;
+                if (present(e))
+                {
+                    found++;
+                    sum = (sum * 31 + idof(e) + 7) % 1000003;
+                }
+                else
+                    sum = (sum * 31 + 3) % 1000003;
+                i++;
+            }
+            r.push((int)out.size());
+            r.push((int)found);
+            r.push((int)inorder);
+            r.push((int)sum);
+        };
         switch (o.k)
         {
             case OpK::Advance:
@@ -322,22 +348,22 @@ struct Ad
                 if constexpr (T.is_set)
                 {
                     std::vector<Key> v;
-                    for (int i = 0; i < o.n; i++)
-                        v.push_back(Key{o.key[i]});
+                    for (int i = 0; i < N; i++)
+                        v.push_back(Key{KEY(i)});
                     cnt = c.insert_range(v, to_allow(o.allow));
                 }
                 else if constexpr (T.ttl_per_entry)
                 {
                     std::vector<Tlru3> v;
-                    for (int i = 0; i < o.n; i++)
-                        v.push_back(Tlru3{ms(o.ttl[i]), Key{o.key[i]}, Val(o.wid[i], o.key[i])});
+                    for (int i = 0; i < N; i++)
+                        v.push_back(Tlru3{ms(TTL(i)), Key{KEY(i)}, Val(WID(i), KEY(i))});
                     cnt = c.insert_range(v, to_allow(o.allow));
                 }
                 else
                 {
                     std::vector<std::pair<Key, Val>> v;
-                    for (int i = 0; i < o.n; i++)
-                        v.emplace_back(Key{o.key[i]}, Val(o.wid[i], o.key[i]));
+                    for (int i = 0; i < N; i++)
+                        v.emplace_back(Key{KEY(i)}, Val(WID(i), KEY(i)));
                     if constexpr (T.has_iter_forms)
                     {
                         if (o.k == OpK::InsertIt)
@@ -357,8 +383,8 @@ struct Ad
             case OpK::EraseRange:
             case OpK::EraseIt: {
                 std::vector<Key> v;
-                for (int i = 0; i < o.n; i++)
-                    v.push_back(Key{o.key[i]});
+                for (int i = 0; i < N; i++)
+                    v.push_back(Key{KEY(i)});
                 size_t cnt;
                 if constexpr (T.has_iter_forms)
                 {
@@ -405,11 +431,16 @@ struct Ad
             case OpK::FindRange:
             case OpK::FindIt: {
                 std::vector<Key> v;
-                for (int i = 0; i < o.n; i++)
-                    v.push_back(Key{o.key[i]});
+                for (int i = 0; i < N; i++)
+                    v.push_back(Key{KEY(i)});
                 if constexpr (T.is_set)
                 {
                     auto out = c.find_range(v);
+                    if (o.span > 0)
+                    {
+                        agg(out, [](auto& e) { return e.second; }, [](auto&) { return 0; });
+                        break;
+                    }
                     r.push((int)out.size());
                     for (auto& [k, b] : out)
                     {
@@ -432,6 +463,11 @@ struct Ad
                     }
                     else
                         out = c.find_range(v);
+                    if (o.span > 0)
+                    {
+                        agg(out, [](auto& e) { return e.second.has_value(); }, [](auto& e) { return e.second->id(); });
+                        break;
+                    }
                     r.push((int)out.size());
                     for (auto& [k, ov] : out)
                     {
@@ -448,9 +484,14 @@ struct Ad
                 {
                     std::vector<std::pair<Key, bool>> v;
                     // pre-fill with the opposite polarity pattern so that "overwrites every slot" is visible
-                    for (int i = 0; i < o.n; i++)
-                        v.emplace_back(Key{o.key[i]}, (i % 2) == 0);
+                    for (int i = 0; i < N; i++)
+                        v.emplace_back(Key{KEY(i)}, (i % 2) == 0);
                     c.find_range_fill(v);
+                    if (o.span > 0)
+                    {
+                        agg(v, [](auto& e) { return e.second; }, [](auto&) { return 0; });
+                        break;
+                    }
                     r.push((int)v.size());
                     for (auto& [k, b] : v)
                     {
@@ -462,14 +503,14 @@ struct Ad
                 else
                 {
                     std::vector<std::pair<Key, std::optional<Val>>> v;
-                    for (int i = 0; i < o.n; i++)
+                    for (int i = 0; i < N; i++)
                     {
                         // even positions start empty, odd positions start with a junk value that
                         // must be overwritten (with the real value or with nullopt)
                         if (i % 2 == 0)
-                            v.emplace_back(Key{o.key[i]}, std::nullopt);
+                            v.emplace_back(Key{KEY(i)}, std::nullopt);
                         else
-                            v.emplace_back(Key{o.key[i]}, Val(-77, -77));
+                            v.emplace_back(Key{KEY(i)}, Val(-77, -77));
                     }
                     if constexpr (T.has_peek)
                         c.find_range_fill(v, pk(o.peek));
@@ -482,6 +523,11 @@ struct Ad
                     }
                     else
                         c.find_range_fill(v);
+                    if (o.span > 0)
+                    {
+                        agg(v, [](auto& e) { return e.second.has_value(); }, [](auto& e) { return e.second->id(); });
+                        break;
+                    }
                     r.push((int)v.size());
                     for (auto& [k, ov] : v)
                     {
